@@ -195,7 +195,7 @@ impl<const N: u32> PxE1<{ N }> {
                         let regime = if reg_s { ((1 << reg) - 1) << 1 } else { 1_u32 };
 
                         let mut u_z = (regime << (30 - reg))
-                            + ((exp as u32) << (29 - reg))
+                            + (if reg <= 29 { (exp as u32) << (29 - reg) } else { 0 })
                             + (frac << (32 - N));
                         //minpos
                         if (u_z == 0) && (frac > 0) {
@@ -266,7 +266,7 @@ impl<const N: u32> PxE1<{ N }> {
                     let regime = if reg_s { ((1 << reg) - 1) << 1 } else { 1_u32 };
 
                     let mut u_z =
-                        (regime << (30 - reg)) + ((exp as u32) << (29 - reg)) + (frac << (32 - N));
+                        (regime << (30 - reg)) + (if reg <= 29 { (exp as u32) << (29 - reg) } else { 0 }) + (frac << (32 - N));
                     //minpos
                     if (u_z == 0) && (frac > 0) {
                         u_z = 0x1 << (32 - N);
@@ -372,7 +372,7 @@ impl<const N: u32> PxE1<{ N }> {
         let mask = 0x80000000_u32;
 
         let sign = a >> 31 != 0;
-        let a = if sign { -a as u32 } else { a as u32 };
+        let a = if sign { a.wrapping_neg() as u32 } else { a as u32 };
 
         //NaR
         if a == 0x80000000 {
